@@ -54,3 +54,78 @@ for cls, real in (('SmallFftPow2C', False), ('SmallFftPow2R', True)):
 fn('dsplib::PrimesFftC::_dft_n3', F, serves=['C01', 'C05'], assigns=['y'],
    requires=[('buffers', 'And(x.off == 0, y.off == 0, x.target.len >= 3, y.target.len >= 3)')],
    ensures=dft_post(3, False))
+
+# ---------------------------------------------------------------------------------------------------
+# direct DFT for small primes: y[k] = sum_i x[i] * tw[(i*k) mod n] for every n <= 41 (unbounded in the data, symbolic n)
+import z3 as _z3
+from engine.specfun import NS as _SF
+
+ENV = dict(_SF)
+
+
+def modadd(a, k, n):
+    """(a + k) mod n from a mod n, for a >= 0, 0 <= k < n (lemma about the mathematical mod; engine/selftest.py)"""
+    return _z3.Implies(_z3.And(a >= 0, 0 <= k, k < n), (a + k) % n == _z3.If(a % n + k < n, a % n + k, a % n + k - n))
+
+
+ENV['MODADD'] = modadd
+XR, XI, TR, TI = 're_data(x.target)', 'im_data(x.target)', 're_data(tw.target)', 'im_data(tw.target)'
+CTWA = '%s, %s, %s, %s' % (XR, XI, TR, TI)
+BIN0 = 'And(y[0].re == SUMR(%s, %%s), y[0].im == SUMR(%s, %%s))' % (XR, XI)
+DONE = ('forall(lambda t: Implies(And(1 <= t, t < %%s), And(y[t].re == CTW_RE(%s, n, t, n), y[t].im == CTW_IM(%s, n, t, n))))'
+        % (CTWA, CTWA))
+ZERO = 'forall(lambda t: Implies(And(%s <= t, t < n), And(y[t].re == 0, y[t].im == 0)))'
+
+fn('dsplib::PrimesFftC::_dft_slow', F, serves=['C01', 'C05'], assigns=['y'], extra_env=ENV,
+   requires=[('buffers', 'And(x.off == 0, y.off == 0, tw.off == 0, n >= 1, n <= 41, x.target.len >= n, y.target.len >= n, tw.target.len >= n)')],
+   ensures=[('bin0', BIN0 % ('n', 'n')), ('bins', DONE % 'n')],
+   loops={1: {'facts': ['SUMR_BASE(%s)' % XR, 'SUMR_BASE(%s)' % XI, 'SUMR_STEP(%s, i)' % XR, 'SUMR_STEP(%s, i)' % XI],
+              'inv': [('acc0', BIN0 % ('i', 'i')), ('rest0', ZERO % '1')]},
+          2: {'inv': [('bin0', BIN0 % ('n', 'n')), ('done', DONE % 'k'), ('rest', ZERO % 'k')]},
+          3: {'facts': ['CTW_BASE(%s, n, k)' % CTWA, 'CTW_STEP(%s, n, k, i)' % CTWA, 'MODADD(i * k, k, n)'],
+              'inv': [('twiddle', 'And(iw == (i * k) % n, 0 <= iw, iw < n)'),
+                      ('bin0', BIN0 % ('n', 'n')), ('done', DONE % 'k'),
+                      ('acc', 'And(y[k].re == CTW_RE(%s, n, k, i), y[k].im == CTW_IM(%s, n, k, i))' % (CTWA, CTWA)),
+                      ('rest', ZERO % 'k + 1')]}})
+
+# ---------------------------------------------------------------------------------------------------
+# prime-size plan: dispatch (3-point kernel / table DFT up to 41 / chirp-z above) and rejection of other lengths
+fn('dsplib::CztPlan::solve', F, key='CztPlan::solve', serves=['C01'], trusted=True, pure=True,
+   ensures=[('length', 'result.len == x.len')],
+   notes='assumed: a CztPlan built as CztPlan(n, n, w) maps n samples to n points (CztPlanImpl::solve itself checks the length); '
+         'the chirp-z arithmetic is floating point over three FFTs and is outside the contracts')
+PR_OK = 'And(n_ >= 3, Implies(n_ <= 41, w_.len == n_))'
+WR, WI = 're_data(w_)', 'im_data(w_)'
+CTWW = '%s, %s, %s, %s' % (XR, XI, WR, WI)
+fn('dsplib::PrimesFftC::_dft', F, serves=['C01', 'C05'], assigns=['y'], extra_env=ENV,
+   requires=[('invariant', PR_OK), ('buffers', 'And(x.off == 0, y.off == 0, n >= 0, x.target.len >= n, y.target.len >= n)')],
+   throws='n != n_',
+   ensures=[('table_dft', 'Implies(And(n_ > 3, n_ <= 41), And(' + (BIN0 % ('n', 'n')) + ', ' + (DONE % 'n').replace(CTWA, CTWW) + '))')]
+   + [(nm, 'Implies(n_ == 3, %s)' % e) for nm, e in dft_post(3, False)])
+fn('dsplib::PrimesFftC::solve', F, sig='(const dsplib::cmplx_t *', key='PrimesFftC::solve(ptr)', serves=['C01', 'C05'], assigns=['y'], extra_env=ENV,
+   requires=[('invariant', PR_OK), ('buffers', 'And(x.off == 0, y.off == 0, n >= 0, x.target.len >= n, y.target.len >= n)')],
+   throws='n != n_')
+fn('dsplib::PrimesFftC::solve', F, sig='(const dsplib::arr_cmplx &) const', key='PrimesFftC::solve(arr)', serves=['C01', 'C05', 'C09'], pure=True, extra_env=ENV,
+   requires=[('invariant', PR_OK)], throws='x.len != n_', ensures=[('length', 'result.len == n_')])
+
+# ---------------------------------------------------------------------------------------------------
+# small power-of-two plans: dispatch on the plan size, rejection of other input lengths
+SIZES = 'Or(n_ == 1, n_ == 2, n_ == 4, n_ == 8)'
+
+
+def small_post(real, out='y', inp='x'):
+    post = [('bin_n1', 'Implies(n_ == 1, And(%s[0].re == %s, %s[0].im == %s))' % ((out, inp + '[0]', out, '0') if real else (out, inp + '[0].re', out, inp + '[0].im')))]
+    for n in (2, 4, 8):
+        for nm, e in dft_post(n, real):
+            e = e.replace('y[', out + '[').replace('x[', inp + '[')
+            post.append(('n%d_%s' % (n, nm), 'Implies(n_ == %d, %s)' % (n, e)))
+    return post
+
+
+for cls, real, et in (('SmallFftPow2C', False, 'cmplx_t'), ('SmallFftPow2R', True, 'real_t')):
+    fn('dsplib::%s::%s' % (cls, cls), F, serves=['C01', 'C05'], assigns=['this'], throws='Not(And(n >= 1, n <= 8))', ensures=[('size', 'n_ == n')])
+    fn('dsplib::%s::solve' % cls, F, sig='*, dsplib::cmplx_t *, int) const', key=cls + '::solve(ptr)', serves=['C01', 'C05'], assigns=['y'],
+       requires=[('buffers', 'And(x.off == 0, y.off == 0, n >= 0, x.target.len >= n, y.target.len >= n)')],
+       throws='Or(n != n_, Not(%s))' % SIZES, ensures=small_post(real))
+    fn('dsplib::%s::solve' % cls, F, sig='&) const', key=cls + '::solve(arr)', serves=['C01', 'C05', 'C09'], pure=True,
+       throws='Or(x.len != n_, Not(%s))' % SIZES, ensures=[('length', 'result.len == n_')] + small_post(real, 'result', 'x'))
